@@ -135,6 +135,11 @@ fn full_pipeline(mods: Vec<(String, String)>, st: Arc<Mutex<&'static str>>) -> S
     Ok(_) => "ok",
     Err(_) => "errors",
   };
+  // an entry point that does not exist is an error value, never a panic
+  let bogus = heap.alloc_module_reference_from_string_vec(vec!["no".to_string(), "SuchEntry".to_string()]);
+  if samlang_compiler::compile_sources(&mut heap, sources.clone(), vec![bogus], false).is_ok() {
+    return format!("panic@compile {}", hex(b"compile_sources accepted a non-existent entry point"));
+  }
   if (compiled == "ok") != (nerr == 0) {
     return format!("panic@compile {}", hex(b"compile_sources result disagrees with the error set"));
   }
@@ -204,6 +209,25 @@ fn main() {
     let ans = match t[0] {
       "lex" if t.len() == 2 => lex(&unhex_str(t[1])),
       "full" => full(&t[1..], Duration::from_millis(timeout_ms)),
+      // the second parser entry point: `parse_source_expression_from_text`
+      "expr" if t.len() == 2 => {
+        let text = unhex_str(t[1]);
+        let r = catch_unwind(AssertUnwindSafe(|| {
+          let mut heap = Heap::new();
+          let mut error_set = ErrorSet::new();
+          let _ = samlang_parser::parse_source_expression_from_text(
+            &text,
+            ModuleReference::DUMMY,
+            &mut heap,
+            &mut error_set,
+          );
+          error_set.errors().len()
+        }));
+        match r {
+          Ok(n) => format!("ok errs={n}"),
+          Err(e) => format!("panic@expr {}", hex(format!("{} [{}]", panic_msg(&e), panic_at()).as_bytes())),
+        }
+      }
       _ => "bad-op".to_string(),
     };
     writeln!(out, "{ans}").unwrap();
